@@ -40,7 +40,7 @@ def judge(ctx, obs, stats, prop="C08"):
             continue
         bad = int(why[4:]) if why.startswith("Step") and why[4:].isdigit() and int(why[4:]) > 0 else 0
         syms = d["steps"][bad - 1]["syms"] if bad else []
-        sig = "c08:%s:%s:%s:%s" % (d["role"], d["mode"], why if not bad else "step", "+".join(syms))
+        sig = "%s:%s:%s:%s:%s" % (prop.lower(), d["role"], d["mode"], why if not bad else "step", "+".join(syms))
         g = groups.setdefault(sig, dict(n=0, first=d, why=why))
         g["n"] += 1
     for sig, g in sorted(groups.items()):
